@@ -26,6 +26,9 @@ type DKG struct {
 	Round    int // rounds whose messages have been sent
 	// Peers receive exactly the same messages as the primary keeper (twin replicas)
 	Peers []Peer
+	// CheatFrom/CheatTo (member ids, 0 = nobody): CheatFrom deals a corrupted share to CheatTo, who complains in round 3
+	// instead of confirming; the complaint succeeds, CheatFrom is marked malicious and the key generation FAILS
+	CheatFrom, CheatTo tss.MemberID
 }
 
 // Peer is another replica's keeper and context.
@@ -88,6 +91,12 @@ func (d *DKG) Send(ctx sdk.Context, k *tsskeeper.Keeper) error {
 			if err != nil {
 				return err
 			}
+			if d.CheatFrom == mid && d.CheatTo != 0 && d.CheatTo != mid {
+				slot := tsstypes.FindMemberSlot(d.CheatFrom, d.CheatTo)
+				bad := append(tss.EncSecretShare{}, enc[slot]...)
+				bad[0] ^= 0x5a
+				enc[slot] = bad
+			}
 			d.Enc[i] = enc
 			if _, err := ms.SubmitDKGRound2(ctx, tsstypes.NewMsgSubmitDKGRound2(d.GroupID, tsstypes.NewRound2Info(mid, enc), d.Accounts[i].Address.String())); err != nil {
 				return err
@@ -97,6 +106,19 @@ func (d *DKG) Send(ctx sdk.Context, k *tsskeeper.Keeper) error {
 		d.Priv = make([]tss.Scalar, n)
 		for i := 0; i < n; i++ {
 			mid := tss.MemberID(i + 1)
+			if d.CheatFrom != 0 && mid == d.CheatTo && d.CheatFrom != mid {
+				// the victim proves the share it received does not match the dealer's commitments
+				sig, keySym, err := tss.SignComplaint(d.R1[i].OneTimePubKey, d.R1[d.CheatFrom-1].OneTimePubKey, d.R1[i].OneTimePrivKey)
+				if err != nil {
+					return err
+				}
+				cp := tsstypes.Complaint{Complainant: mid, Respondent: d.CheatFrom, KeySym: keySym, Signature: sig}
+				if _, err := ms.Complain(ctx, tsstypes.NewMsgComplain(d.GroupID, []tsstypes.Complaint{cp}, d.Accounts[i].Address.String())); err != nil {
+					return err
+				}
+				d.Priv[i] = nil
+				continue
+			}
 			shares, err := secretShares(d.R1, d.Enc, mid)
 			if err != nil {
 				return err
@@ -111,6 +133,9 @@ func (d *DKG) Send(ctx sdk.Context, k *tsskeeper.Keeper) error {
 			}
 			d.Priv[i] = priv
 			if _, err := ms.Confirm(ctx, tsstypes.NewMsgConfirm(d.GroupID, mid, sig, d.Accounts[i].Address.String())); err != nil {
+				if d.CheatFrom != 0 {
+					continue // (a member already marked malicious is refused; the round still closes)
+				}
 				return err
 			}
 		}
@@ -229,6 +254,16 @@ func (b *bcast) Confirm(ctx sdk.Context, m *tsstypes.MsgConfirm) (*tsstypes.MsgC
 	for i, p := range b.peers {
 		if _, e := p.Confirm(b.pctx[i], m); (e == nil) != (err == nil) {
 			return r, fmt.Errorf("replicas disagree on confirm: %v vs %v", err, e)
+		}
+	}
+	return r, err
+}
+
+func (b *bcast) Complain(ctx sdk.Context, m *tsstypes.MsgComplain) (*tsstypes.MsgComplainResponse, error) {
+	r, err := b.primary.Complain(ctx, m)
+	for i, p := range b.peers {
+		if _, e := p.Complain(b.pctx[i], m); (e == nil) != (err == nil) {
+			return r, fmt.Errorf("replicas disagree on complain: %v vs %v", err, e)
 		}
 	}
 	return r, err
